@@ -108,6 +108,24 @@ func drawScript(rt *rapid.T) c03script {
 		s.kinds[0] = gen.ByName["String|X|String"]
 		large = gen.Expand(rapid.Uint64().Draw(rt, "large-seed"), rapid.SampledFrom([]int{4 << 10, 16 << 10, 64 << 10, 128 << 10, 256 << 10}).Draw(rt, "large-size")+rapid.IntRange(-40, 1000).Draw(rt, "large-extra"))
 	}
+	// One script in thirty has a LowCardinality(String) column whose blocks carry more than 255
+	// distinct values each (two-byte keys), several blocks through the same target.
+	wideDict := large == nil && rapid.IntRange(0, 29).Draw(rt, "wide-dictionary") == 0
+	if wideDict {
+		if k := gen.ByName["LowCardinality(String)|LowCardinality(X)|String"]; k != nil {
+			s.kinds, s.names = []*gen.Kind{k}, s.names[:1]
+			blockNo := 0
+			mkBlock = func(rows int) *ref.Block {
+				blockNo++
+				n := []int{0, 300, 257, 1, 300}[rows%5]
+				var vals []ref.Val
+				for i := 0; i < n; i++ {
+					vals = append(vals, []byte(fmt.Sprintf("value-%d-%05d", blockNo, (i*7)%n)))
+				}
+				return &ref.Block{Info: ref.BlockInfo{BucketNum: -1}, Columns: []ref.Column{{Name: s.names[0], T: k.T, Rows: vals}}}
+			}
+		}
+	}
 	nItems := rapid.IntRange(0, 8).Draw(rt, "items")
 	if large != nil {
 		b := mkBlock(rapid.IntRange(1, 3).Draw(rt, "rows"))
